@@ -3,6 +3,7 @@ package rules
 import (
 	"fmt"
 	"go/ast"
+	"go/constant"
 	"go/token"
 	"go/types"
 	"sort"
@@ -257,6 +258,70 @@ func c08r3(rc *core.RC) {
 	}
 	if want < 0 {
 		return
+	}
+	// where the trailer starts: in linkRecursiveCode the end op's Idx must be exactly totalLength slots
+	// (slots 0..totalLength-1 belong to the program, the frame has totalLength+K slots)
+	if fd := p.Func("encoder", "Compiler.linkRecursiveCode"); fd != nil {
+		info := p.Info(fd)
+		le := &core.LinearEval{Info: info, Pkg: p.Pkg("encoder"), Body: fd.Body}
+		word, _ := core.ConstInt(info, ast.NewIdent("uintptrSize"))
+		if c, ok := p.Pkg("encoder").Types.Scope().Lookup("uintptrSize").(*types.Const); ok {
+			if v, ok2 := constInt64(c); ok2 {
+				word = v
+			}
+		}
+		var idxRHS, totalDef ast.Expr
+		ast.Inspect(fd.Body, func(n ast.Node) bool {
+			as, ok := n.(*ast.AssignStmt)
+			if !ok || len(as.Lhs) != 1 || len(as.Rhs) != 1 {
+				return true
+			}
+			if f := core.FieldOf(info, as.Lhs[0]); f != nil && f.Name() == "Idx" {
+				idxRHS = as.Rhs[0]
+			}
+			if id, ok := as.Lhs[0].(*ast.Ident); ok && id.Name == "totalLength" {
+				totalDef = as.Rhs[0]
+			}
+			return true
+		})
+		key := "encoder.linkRecursiveCode/trailer-start"
+		if idxRHS == nil || totalDef == nil || word == 0 {
+			rc.Unknown(key, fd.Pos(), "assignment of the end op's Idx or of totalLength not recognised")
+		} else {
+			base := le.Eval(idxRHS)
+			// base = word*totalLength + word*c0
+			c0, okc := int64(0), base.OK
+			for a, c := range base.Terms {
+				if c != 0 && !(a == "totalLength" && c == word) {
+					okc = false
+				}
+			}
+			if okc && base.Const%word == 0 {
+				c0 = base.Const / word
+			} else {
+				okc = false
+			}
+			if !okc {
+				rc.Unknown(key, idxRHS.Pos(), "end op Idx %s is not of the form (totalLength + c) * uintptrSize", base)
+			} else {
+				rc.Check(c0 == 0, key, idxRHS.Pos(), "the trailer of a recursive frame starts at slot totalLength%+d; the program owns slots 0..totalLength-1 and the frame has totalLength+%d slots, so the %d trailer slots fit only if it starts at totalLength", c0, want, want)
+			}
+		}
+	}
+	if fd := p.Func("encoder", "copyToInterfaceOpcode"); fd != nil {
+		info := p.Info(fd)
+		okInc := false
+		ast.Inspect(fd.Body, func(n ast.Node) bool {
+			if as, ok := n.(*ast.AssignStmt); ok && as.Tok == token.ADD_ASSIGN && len(as.Lhs) == 1 {
+				if f := core.FieldOf(info, as.Lhs[0]); f != nil && f.Name() == "Idx" {
+					if o := core.ObjOf(info, as.Rhs[0]); o != nil && o.Name() == "uintptrSize" {
+						okInc = true
+					}
+				}
+			}
+			return true
+		})
+		rc.Check(okInc, "encoder.copyToInterfaceOpcode/trailer-start", fd.Pos(), "the interface end op's trailer starts one slot after the program's last slot (Idx += uintptrSize)")
 	}
 	// sizing sites: `<length> + K`
 	checkK := func(pkg, fn string, fd *ast.FuncDecl, filter func(*ast.AssignStmt) bool) {
@@ -673,5 +738,73 @@ func c08r8(rc *core.RC) {
 	}
 	if n < 30 {
 		rc.Unknown("encoder/compiled-writes", token.NoPos, "found only %d writes to Opcode/OpcodeSet/CompiledCode fields", n)
+	}
+}
+
+func constInt64(c *types.Const) (int64, bool) {
+	return constant.Int64Val(constant.ToInt(c.Val()))
+}
+
+// ---- C08.R9 every recursive reference has a registered target ----
+
+func c08r9(rc *core.RC) {
+	p := rc.P
+	n := 0
+	for _, fd := range p.Funcs("encoder") {
+		if fd.Body == nil {
+			continue
+		}
+		info := p.Info(fd)
+		emits, registers := false, false
+		ast.Inspect(fd.Body, func(m ast.Node) bool {
+			as, ok := m.(*ast.AssignStmt)
+			if !ok || len(as.Lhs) != 1 {
+				return true
+			}
+			lhs := core.Unparen(as.Lhs[0])
+			if st, ok := lhs.(*ast.StarExpr); ok {
+				if f := core.FieldOf(info, st.X); f != nil && f.Name() == "recursiveCodes" {
+					emits = true
+				}
+			}
+			if ix, ok := lhs.(*ast.IndexExpr); ok {
+				if f := core.FieldOf(info, ix.X); f != nil && f.Name() == "structTypeToCodes" {
+					registers = true
+				}
+			}
+			return true
+		})
+		if !emits {
+			continue
+		}
+		n++
+		rc.Touch(p.FuncName(fd))
+		key := p.FuncName(fd) + "/registers-struct-body"
+		if registers {
+			rc.OK(key, fd.Pos(), "the function that can emit a recursive reference to its struct type also registers the type's body in ctx.structTypeToCodes")
+		} else {
+			rc.Bad(key, fd.Pos(), "this function emits OpRecursive references to its struct type but, unlike its sibling, never registers the type's program in ctx.structTypeToCodes; linkRecursiveCode then calls copyOpcode(codes.First()) on a missing entry (nil): a struct that embeds a recursive struct cannot be compiled")
+		}
+	}
+	// consumer side: the lookup result is used without an existence test
+	if fd := p.Func("encoder", "Compiler.linkRecursiveCode"); fd != nil {
+		info := p.Info(fd)
+		checked := false
+		ast.Inspect(fd.Body, func(m ast.Node) bool {
+			if as, ok := m.(*ast.AssignStmt); ok && len(as.Lhs) == 2 && len(as.Rhs) == 1 {
+				if ix, ok := core.Unparen(as.Rhs[0]).(*ast.IndexExpr); ok {
+					if f := core.FieldOf(info, ix.X); f != nil && f.Name() == "structTypeToCodes" {
+						checked = true
+					}
+				}
+			}
+			return true
+		})
+		if checked {
+			rc.Note("encoder.linkRecursiveCode/lookup", fd.Pos(), "the registered program is looked up with the comma-ok form")
+		}
+	}
+	if n < 2 {
+		rc.Unknown("encoder/recursive-emitters", token.NoPos, "found %d functions that emit recursive references (confirmed: StructCode.ToOpcode and ToAnonymousOpcode)", n)
 	}
 }
